@@ -134,12 +134,17 @@ pub enum Source {
 
 // ------------------------------------------------------------------ tasks
 
+/// decisions a task may take without yielding before the starvation guard preempts it
+const QUANTUM: u32 = 3000;
+
 #[derive(Clone, Copy, PartialEq, Eq, Debug)]
 pub enum TState {
     Runnable,
     Parked,
     /// parked until unparked or until `steps >= wake_at`
     ParkedUntil(u64),
+    /// parked until unparked or until the simulated clock reaches this instant (`thread::park_timeout`)
+    ParkedUntilNs(u64),
     Joining(usize),
     Finished,
 }
@@ -165,6 +170,8 @@ pub struct Task {
     pub ctx: u64,
     /// scheduling decisions taken by this task itself
     pub own_steps: u64,
+    /// decisions of its own since the task last yielded, slept or blocked (starvation guard)
+    pub since_yield: u32,
 }
 
 #[derive(Clone, Debug, PartialEq)]
@@ -223,8 +230,6 @@ pub struct Exec {
     idle_yields: u32,
     idle_reads: u32,
     progress_at_last_read: u64,
-    /// consecutive decisions that kept the same task running although another one could run
-    run_len: u32,
 }
 
 thread_local! {
@@ -292,6 +297,7 @@ fn take_stack() -> DefaultStack {
 
 impl Exec {
     fn new(cfg: RunCfg, src: Source) -> Exec {
+        restore_statics();
         let (rng, script) = match src {
             Source::Rng(seed) => (SplitMix(seed), None),
             Source::Script { ts, ds, strict } => (SplitMix(0), Some((ts, 0, ds, 0, strict))),
@@ -322,7 +328,6 @@ impl Exec {
             idle_yields: 0,
             idle_reads: 0,
             progress_at_last_read: 0,
-            run_len: 0,
         };
         if let Policy::Pct(d) = e.cfg.policy {
             if e.script.is_none() {
@@ -424,6 +429,7 @@ impl Exec {
             probe_log: Vec::new(),
             ctx: 0,
             own_steps: 0,
+            since_yield: 0,
         });
         let tp: *mut Task = &mut *t;
         let coro = Coroutine::with_stack(take_stack(), move |y: &Yielder<(), ()>, ()| {
@@ -444,6 +450,13 @@ impl Exec {
         for (i, t) in self.tasks.iter_mut().enumerate() {
             if let TState::ParkedUntil(w) = t.state {
                 if steps >= w {
+                    t.state = TState::Runnable;
+                    t.last_park_spurious = true;
+                    self.stats.timed_wakes += 1;
+                }
+            }
+            if let TState::ParkedUntilNs(w) = t.state {
+                if self.clock_ns >= w {
                     t.state = TState::Runnable;
                     t.last_park_spurious = true;
                     self.stats.timed_wakes += 1;
@@ -474,7 +487,28 @@ impl Exec {
                     }
                 }
             }
+            // nobody can run and no step-based timer is pending: discrete-event time - jump the clock to the earliest
+            // deadline a task is parked for
+            let mut best_ns: Option<(u64, usize)> = None;
+            if best.is_none() {
+                for (i, t) in self.tasks.iter().enumerate() {
+                    if let TState::ParkedUntilNs(w) = t.state {
+                        if best_ns.map_or(true, |(bw, _)| w < bw) {
+                            best_ns = Some((w, i));
+                        }
+                    }
+                }
+            }
             if let Some((_, i)) = best {
+                self.tasks[i].state = TState::Runnable;
+                self.tasks[i].last_park_spurious = true;
+                self.stats.timed_wakes += 1;
+                cands.push(i);
+            } else if let Some((w, i)) = best_ns {
+                if w > self.clock_ns {
+                    self.clock_ns = w;
+                    self.stats.clock_jumps += 1;
+                }
                 self.tasks[i].state = TState::Runnable;
                 self.tasks[i].last_park_spurious = true;
                 self.stats.timed_wakes += 1;
@@ -505,6 +539,16 @@ impl Exec {
                 None
             };
             let mut chosen = None;
+            // an exact replay takes the recorded choice; a tolerant one (the shrinker trying an edited schedule) obeys
+            // the rules every seeded schedule obeys: a task that yields, or that has kept the processor for a whole
+            // quantum without yielding, leaves it if anybody else can run
+            let hog_s = !must_leave && self.tasks[cur].since_yield > QUANTUM;
+            let must_yield_s = !strict && (yielding || hog_s) && cands.iter().any(|&c| c != cur);
+            if hog_s && !strict {
+                self.tasks[cur].since_yield = 0;
+            }
+            let pick = if must_yield_s && pick == Some(cur) { None } else { pick };
+            let yielding = yielding || must_yield_s;
             if let Some(w) = pick {
                 if cands.contains(&w) {
                     chosen = Some(w);
@@ -551,6 +595,15 @@ impl Exec {
         }
 
         // ---------------- seeded choice
+        // starvation guard: every policy is fair in the limit. A task that has taken a whole quantum of decisions
+        // without yielding, sleeping or blocking although another task could run (a loop in the system under test
+        // that never yields: a test-and-set spin lock, a busy wait, a future that wakes itself) is preempted as if it
+        // had yielded - whatever happened in between (stalls and spurious wake-ups of third tasks do not reset it)
+        let hog = !must_leave && !yielding && self.tasks[cur].since_yield > QUANTUM && cands.iter().any(|&c| c != cur);
+        if hog {
+            self.tasks[cur].since_yield = 0;
+        }
+        let yielding = yielding || hog;
         // F4: spurious wake-up of a parked task
         if self.cfg.p_spurious_park > 0 {
             let parked: Vec<usize> = self
@@ -612,23 +665,6 @@ impl Exec {
                 best
             }
         };
-        // starvation guard: every policy is fair in the limit. A task that has kept the processor for 3000 decisions
-        // in a row although another task could run (a loop in the system under test that never yields, e.g. a
-        // deadline-bounded busy wait, under strict priorities) is preempted, as any real scheduler would do.
-        let mut c = c;
-        if c == cur && !must_leave && cands.len() > 1 {
-            self.run_len += 1;
-            if self.run_len > 3000 {
-                c = *cands.iter().find(|&&x| x != cur).unwrap();
-                self.run_len = 0;
-                if let Policy::Pct(_) = self.cfg.policy {
-                    self.low_prio -= 1;
-                    self.tasks[cur].prio = self.low_prio;
-                }
-            }
-        } else {
-            self.run_len = 0;
-        }
         self.ts.push(c as u8);
         self.log(0x7000_0000_0000_0000 ^ c as u64);
         Some(c)
@@ -640,6 +676,7 @@ impl Exec {
     fn own_step(&mut self) {
         let cur = self.current;
         self.tasks[cur].own_steps += 1;
+        self.tasks[cur].since_yield = self.tasks[cur].since_yield.saturating_add(1);
         if let Some((t, after, dur)) = self.cfg.freeze {
             if t == cur && self.tasks[cur].own_steps == after {
                 self.tasks[cur].stall_until = self.steps + dur;
@@ -671,6 +708,10 @@ pub fn switch(yielding: bool) {
     e.events += 1;
     e.stats.steps += 1;
     e.own_step();
+    if yielding {
+        let cur = e.current;
+        e.tasks[cur].since_yield = 0;
+    }
     if e.steps > e.cfg.max_steps {
         e.abort_now(Abort::StepBound);
         e.suspend_current();
@@ -699,6 +740,10 @@ fn block_current() {
     e.events += 1;
     e.stats.steps += 1;
     e.own_step();
+    {
+        let cur = e.current;
+        e.tasks[cur].since_yield = 0;
+    }
     if e.steps > e.cfg.max_steps {
         e.abort_now(Abort::StepBound);
         e.suspend_current();
@@ -787,6 +832,28 @@ pub fn park() {
     }
 }
 
+/// `thread::park_timeout`: park until unparked or until the simulated clock has advanced by `ns`.
+pub fn park_timeout_ns(ns: u64) {
+    dbg("park_timeout");
+    let Some(e) = ex() else { return };
+    switch(false);
+    let cur = e.current;
+    e.stats.parks += 1;
+    if !e.tasks[cur].token {
+        e.tasks[cur].state = TState::ParkedUntilNs(e.clock_ns.saturating_add(ns.max(1)));
+        e.tasks[cur].last_park_spurious = false;
+        block_current();
+    }
+    let e = ex().unwrap();
+    let t = &mut e.tasks[cur];
+    if t.token {
+        t.token = false;
+        let tv = t.token_vc;
+        t.vc.join(&tv);
+        t.last_park_spurious = false;
+    }
+}
+
 /// Park until unparked or until `k` more scheduling decisions have been taken.
 /// Returns true if it was a real unpark.
 pub fn park_steps(k: u64) -> bool {
@@ -821,7 +888,7 @@ pub fn unpark(t: usize) {
     let tt = &mut e.tasks[t];
     tt.token = true;
     tt.token_vc.join(&myvc);
-    if matches!(tt.state, TState::Parked | TState::ParkedUntil(_)) {
+    if matches!(tt.state, TState::Parked | TState::ParkedUntil(_) | TState::ParkedUntilNs(_)) {
         tt.state = TState::Runnable;
     }
     // unpark is a release operation
@@ -835,6 +902,57 @@ pub fn note_progress() {
     if let Some(e) = ex() {
         e.progress += 1;
     }
+}
+
+extern "C" {
+    static __data_start: u8;
+    static _end: u8;
+}
+/// does this address lie in the executable's static data (a `static` of the system under test, e.g. the seed of
+/// kanal's pseudo-random back-off)?
+#[inline]
+fn is_static(addr: usize) -> bool {
+    let (lo, hi) = unsafe { (&__data_start as *const u8 as usize, &_end as *const u8 as usize) };
+    addr >= lo && addr < hi
+}
+
+thread_local! {
+    /// shimmed atomics that live in static memory, with the value they had before their first modification in this
+    /// process: restored at the start of every run, so that a run is a function of its case and decisions only
+    static STATICS: std::cell::RefCell<Vec<(usize, usize, u64)>> = std::cell::RefCell::new(Vec::new());
+}
+
+/// A store / successful RMW on the shimmed atomic at `addr` (`size` bytes, value before the modification `old`).
+/// Modifications of statics are not progress (a waiter that bumps a random-number seed on every iteration is still
+/// only waiting) and are undone before the next run.
+#[inline]
+pub fn note_modification(addr: usize, size: usize, old: u64) {
+    if is_static(addr) {
+        STATICS.with(|s| {
+            let mut s = s.borrow_mut();
+            if !s.iter().any(|x| x.0 == addr) {
+                s.push((addr, size, old));
+            }
+        });
+        return;
+    }
+    note_progress();
+}
+
+/// undo every recorded modification of a static atomic (start of a run)
+pub fn restore_statics() {
+    STATICS.with(|s| {
+        for (addr, size, old) in s.borrow().iter() {
+            unsafe {
+                match size {
+                    1 => *(*addr as *mut u8) = *old as u8,
+                    2 => *(*addr as *mut u16) = *old as u16,
+                    4 => *(*addr as *mut u32) = *old as u32,
+                    _ => *(*addr as *mut u64) = *old,
+                }
+            }
+        }
+    });
 }
 
 /// How far the clock moves at a yield / sleep: 200 ns normally; when tasks keep yielding without anybody
